@@ -63,10 +63,17 @@ func (r *recorder) see(name string, s *interpreter.State) {
 	r.calls = append(r.calls, name)
 	if r.scribble && s != nil {
 		for _, st := range [][][]byte{s.DataStack, s.AltStack, s.ElseStack, s.SavedFirstStack} {
-			for _, item := range st {
+			for k, item := range st {
 				for i := range item {
 					item[i] ^= 0xa5
 				}
+				// a debugger may also grow what it was given: writes into spare capacity of a
+				// snapshot item (empty items included) must not reach the running execution
+				full := item[:cap(item)]
+				for i := len(item); i < len(full); i++ {
+					full[i] ^= 0x5a
+				}
+				st[k] = append(item, 0xee)
 			}
 		}
 		for i := range s.CondStack {
